@@ -164,6 +164,25 @@ fn projects() -> Vec<Project> {
         dup_ids: vec![],
     });
     v.push(Project {
+        name: "import-paths-that-repeat-the-item-name",
+        files: vec![
+            ("obs", "package o; import s.Status; import s.Status.Status; import s.Status.Status.Status; import a.a; import a.a.a; import a.a.a.a;\ninterface I { void f(in Status x, in a y); Status g(); List<a> h(); }"),
+            ("s1", "package s; parcelable Status { }"),
+            ("s2", "package s.Status; enum Status { A }"),
+            ("a1", "package a; interface a { }"),
+            ("a2", "package a.a; parcelable a { }"),
+        ],
+        dup_ids: vec![],
+    });
+    v.push(Project {
+        name: "large-transact-codes-between-other-diagnostics",
+        files: vec![
+            ("obs", "package o; import u.A; import u.B;\ninterface I {\n  void f(int[] a) = 16777215;\n  oneway int g(out int[] b) = 4294967295;\n  void h(List c) = 2147483648; void i(Map d) = 16777216; void j(Unknown e) = 16777214;\n  void k(in int[] z) = 16777215;\n}"),
+            ("other", "package u; interface A { void f() = 4294967295; void g() = 4294967295; void h(); }"),
+        ],
+        dup_ids: vec![],
+    });
+    v.push(Project {
         name: "forward-declaration-in-another-file",
         files: vec![
             ("a", "package a; parcelable Payload; parcelable Extra; interface A { void f(in Payload p); }"),
@@ -736,7 +755,7 @@ pub fn run(tier: Tier, seed: u64) -> i32 {
     let multi = stats.states.load(std::sync::atomic::Ordering::Relaxed) > 1000;
     finish(
         &stats,
-        "23 projects built to collide (several diagnostics on one line, several unresolved / unused imports and forward declarations, two imports matching one name, a declaration conflicting with several imports, one key registered twice, files without a tree, recovered syntax errors after validation diagnostics) x insertion orders (all permutations up to the stated cap) x plain / replace histories x base keys of new threads x repeated validate() calls; hash seeds are owned through the getrandom shim and the sweep continues until every hash container of <= 4 elements has been observed (hook H3) in all its iteration orders at every site; all outputs of one project must be equal and every file's diagnostics ascending in (line, column); states = validate() calls compared; distinct_nontrivial = distinct iteration-order tuples observed",
+        "25 projects built to collide (several diagnostics on one line, several unresolved / unused imports and forward declarations, two imports matching one name, a declaration conflicting with several imports, one key registered twice, files without a tree, recovered syntax errors after validation diagnostics) x insertion orders (all permutations up to the stated cap) x plain / replace histories x base keys of new threads x repeated validate() calls; hash seeds are owned through the getrandom shim and the sweep continues until every hash container of <= 4 elements has been observed (hook H3) in all its iteration orders at every site; all outputs of one project must be equal and every file's diagnostics ascending in (line, column); states = validate() calls compared; distinct_nontrivial = distinct iteration-order tuples observed",
         &[
             "std's RandomState takes its keys from getrandom(2) once per thread and increments them per instance; the LD_PRELOAD shim makes them a function of the harness-chosen base key (self-tested at start-up)",
             "hook H3 only observes the order of the container the library is about to iterate",
